@@ -39,7 +39,7 @@ static const char *tok_readout(spif_tok_t t, vh_sb *ret) {
     return NULL;
 }
 
-static const char *vh_step(const vh_step_t *st, vh_sb *ret, vh_sb *state) {
+static const char *do_step(const vh_step_t *st, vh_sb *ret, vh_sb *state) {
     const char *op = st->op;
     static char msg[128];
     sb_putc(state, '-');
@@ -182,8 +182,12 @@ static const char *vh_step(const vh_step_t *st, vh_sb *ret, vh_sb *state) {
     return NULL;
 }
 
+/* every step at every run-time debug level of VH_LEVELS (c12_util.h) */
+static const char *vh_step(const vh_step_t *st, vh_sb *ret, vh_sb *state) { return cu_step_at_levels(do_step, st, ret, state); }
+
 int main(int argc, char **argv) {
     libast_set_program_name("quote_replay");
     DEBUG_LEVEL = 0;
+    cu_levels_init();
     return vh_main(argc, argv, 1);
 }
